@@ -82,6 +82,9 @@ func (f *FS) lookup(abs string, followLast bool, depth int) (*Node, syscall.Errn
 		if cur.Kind != KDir {
 			return nil, syscall.ENOTDIR
 		}
+		if len(name) > 255 {
+			return nil, syscall.ENAMETOOLONG // (NAME_MAX)
+		}
 		child, ok := cur.Children[name]
 		if !ok {
 			return nil, syscall.ENOENT
